@@ -137,7 +137,7 @@ func GenC09(t *rapid.T) *C09Case {
 		if oneIn(t, 4, "om") {
 			name = objectMuts[drawIdx(t, len(objectMuts), "omn")]
 		}
-		c.Muts = append(c.Muts, Mut{Who: drawInt(t, 0, 63, "who"), Name: name, A: genRaw(t), V: genValSpec(t, 0), Key: []string{"a", "b", "zz", ""}[drawInt(t, 0, 3, "mk")]})
+		c.Muts = append(c.Muts, Mut{Who: drawInt(t, 0, 63, "who"), Name: name, A: genRaw(t), V: genValSpec(t, 0), Key: []string{"a", "b", "zz", "", "n1", "n2", "n3", "n4"}[drawIdx(t, 8, "mk")]})
 	}
 	return c
 }
